@@ -226,8 +226,8 @@ fn erase_tags(s: &str) -> String {
     out
 }
 
-pub fn op(src: &str, want_trees: bool) -> String {
-    let tree = match parse(src, Mode::Module, "<v>") {
+pub fn op(src: &str, want_trees: bool, mode: Mode) -> String {
+    let tree = match parse(src, mode, "<v>") {
         Ok(t) => t,
         Err(e) => return format!("{{\"skip\":{}}}", json_str(&format!("{:?}", e.error))),
     };
@@ -260,13 +260,21 @@ pub fn op(src: &str, want_trees: bool) -> String {
         errs.push(("folded tree has another shape than the input".into(), trunc(&erase_tags(&dt)), trunc(&scrub_debug(&d0, false))));
     }
     // (c) counting visitor
-    let body = match tree.clone() {
-        ast::Mod::Module(m) => m.body,
-        _ => unreachable!(),
-    };
+    // the Visitor trait has no visit_mod: the root's children are handed over one by one
     let mut cv = Counter::default();
-    for s in body {
-        cv.visit_stmt(s);
+    match tree.clone() {
+        ast::Mod::Module(m) => {
+            for s in m.body {
+                cv.visit_stmt(s);
+            }
+        }
+        ast::Mod::Interactive(m) => {
+            for s in m.body {
+                cv.visit_stmt(s);
+            }
+        }
+        ast::Mod::Expression(m) => cv.visit_expr(*m.body),
+        ast::Mod::FunctionType(_) => return "{\"skip\":\"function type root\"}".to_string(),
     }
     let want = reference_heads(&d0);
     n += 1;
